@@ -247,3 +247,30 @@ Proof. intros D. destruct o; simpl in D; try discriminate; simpl;
   - match goal with H : clone_val _ _ _ = Some ?p |- _ => destruct p as [h1 v1]; rename H into CL end.
     destruct (clone_val_extends _ _ _ _ _ CL) as [e ->]. cbn [fst st_heap st_env with_heap]. eexists. split; reflexivity.
 Qed.
+
+(* --- the list observers IndexOf / Contains / Count / Empty --- *)
+Local Open Scope Z_scope.
+(* IndexOf: -1 exactly when no element is Go-equal to the value; otherwise the position of the FIRST such element *)
+Lemma l_index_of_none l v : forall i, (forall x, In x l -> hval_go_eq x v = false) -> l_index_of l v i = -1.
+Proof. induction l as [|a t IH]; intros i H; cbn [l_index_of]; [reflexivity|].
+  rewrite (H a (or_introl eq_refl)). apply IH. intros x Hx. apply H. right. exact Hx. Qed.
+Lemma l_index_of_first l v : forall i, (exists x, In x l /\ hval_go_eq x v = true) ->
+  exists n x, l_index_of l v i = i + Z.of_nat n /\ nth_error l n = Some x /\ hval_go_eq x v = true /\
+              forall m y, (m < n)%nat -> nth_error l m = Some y -> hval_go_eq y v = false.
+Proof. induction l as [|a t IH]; intros i [x [Hin Hxv]]; [destruct Hin|]. cbn [l_index_of].
+  destruct (hval_go_eq a v) eqn:Ea.
+  - exists 0%nat, a. split; [cbn; lia|]. split; [reflexivity|]. split; [exact Ea|]. intros m y Hm. lia.
+  - destruct Hin as [<-|Hx]; [congruence|]. destruct (IH (i + 1)) as [n [x' [Hn [Hnth [Hx' Hfirst]]]]]; [exists x; auto|].
+    exists (S n), x'. split; [lia|]. split; [exact Hnth|]. split; [exact Hx'|].
+    intros m y Hm Hy. destruct m as [|m]; [cbn in Hy; injection Hy as <-; exact Ea|]. apply (Hfirst m y); [lia | exact Hy]. Qed.
+Theorem l_index_of_minus1_iff l v i : 0 <= i -> (l_index_of l v i = -1 <-> l_contains l v = false).
+Proof. intros Hi. unfold l_contains. destruct (existsb (fun x => hval_go_eq x v) l) eqn:Ex.
+  - apply existsb_exists in Ex. destruct (l_index_of_first l v i Ex) as [n [x [Hn _]]]. split; [lia | discriminate].
+  - split; [reflexivity|]. intros _. apply l_index_of_none. intros x Hx. destruct (hval_go_eq x v) eqn:E; [|reflexivity].
+    assert (existsb (fun y => hval_go_eq y v) l = true) by (apply existsb_exists; exists x; auto). congruence. Qed.
+Lemma l_contains_iff l v : l_contains l v = true <-> exists x, In x l /\ hval_go_eq x v = true.
+Proof. unfold l_contains. apply existsb_exists. Qed.
+Lemma index_contains_step s r v id l x : reg_list s r = Some (id, l) -> eval_operand (st_env s) v = Some x ->
+  step_core s (LIndexOf r v) = (s, Ret (OZ (l_index_of l x 0))) /\ step_core s (LContains r v) = (s, Ret (OB (l_contains l x))) /\
+  step_core s (LCount r) = (s, Ret (OZ (Z.of_nat (length l)))) /\ step_core s (LEmpty r) = (s, Ret (OB (Nat.eqb (length l) 0))).
+Proof. intros Hr Hv. cbn [step_core]. rewrite Hr, Hv. repeat split. destruct l; reflexivity. Qed.
